@@ -29,6 +29,8 @@ func ruleStoreRegistryKey(c *Ctx) {
 					continue
 				}
 				switch e.Callee.Name() {
+				case "Range":
+					bad = append(bad, fmt.Sprintf("store.%s searches the registry with Range instead of looking the URL up: whatever test the callback applies (a prefix, say) lets caches with different URLs end up sharing one store", nm))
 				case "Load", "Store", "LoadOrStore", "Delete", "LoadAndDelete":
 					n++
 					k := e.Args[1].strip()
@@ -379,13 +381,23 @@ func ruleRewriteChain(c *Ctx) {
 	isRegexp := func(t *Term) bool {
 		return t != nil && t.Type != nil && strings.HasSuffix(t.Type.String(), "regexp.Regexp")
 	}
-	n, chained := 0, 0
-	bad := []string{}
+	n, chained, written := 0, 0, 0
+	bad, verb := []string{}, []string{}
 	sim := c.P.Simulate(lit, SimConfig{MaxVisits: 3}, func(pr *PathResult) {
 		n++
 		var prevIn *Term     // the path the previous rule was matched against
 		var produced []*Term // strings produced since then
+		everProduced := map[string]bool{}
 		for _, e := range pr.Events {
+			if e.Kind == "store" && e.Addr != nil && e.Addr.Op == "fa" && e.Addr.Name == "Path" && e.Val != nil {
+				// what is written back is the last rule's result (or the path as it came), nothing applied on top
+				written++
+				v := stripConvTerm(e.Val)
+				if !(v.Op == "init" || everProduced[v.Key()] || (v.Op == "sym" && strings.HasPrefix(v.Name, "widen:"))) {
+					verb = append(verb, fmt.Sprintf("%s: the path written back is %s, not the result of the rules as it stands: the upstream receives a path changed by more than the configured rewrite (a cleaned path loses its trailing slash and doubled slashes)", c.P.pos(e.Instr.Pos()), prettyTerm(v)))
+				}
+				continue
+			}
 			if e.Kind != "call" && e.Kind != "invoke" {
 				continue
 			}
@@ -420,6 +432,7 @@ func ruleRewriteChain(c *Ctx) {
 			}
 			if prevIn != nil && e.Result != nil && isStringType(e.Result.Type) {
 				produced = append(produced, e.Result)
+				everProduced[e.Result.Key()] = true
 			}
 		}
 	})
@@ -428,6 +441,11 @@ func ruleRewriteChain(c *Ctx) {
 		return
 	}
 	c.check(len(bad) == 0, "rewrite-chain", funcName(lit), c.P.pos(lit.Pos()), fmt.Sprintf("%d paths, %d successive rule applications: each rule is matched against the previous rule's result", n, chained), strings.Join(uniq(bad), " || "), chained)
+	if written == 0 {
+		c.undecided("rewrite-result-verbatim", funcName(lit), c.P.pos(lit.Pos()), "no store to the request's path found")
+		return
+	}
+	c.check(len(verb) == 0, "rewrite-result-verbatim", funcName(lit), c.P.pos(lit.Pos()), fmt.Sprintf("%d writes of the request path: each writes the rules' result (or the path as it came) unchanged", written), strings.Join(uniq(verb), " || "), written)
 }
 
 // returnedFuncs: the pike functions a constructor hands out as a function value:
